@@ -20,8 +20,9 @@ from fractions import Fraction as Fr
 import common
 import geomgen
 from geomgen import Gen, Node, env_tokens
+from common import q
 
-ATOL, RTOL, BATOL = "1/100000000", "1/100000", "1/100000"   # torch.isclose defaults; BARY_ATOL of parallelogram.py
+ATOL, RTOL = "1/100000000", "1/100000"   # torch.isclose defaults; the barycentric tolerance is computed per row (eff_batol)
 VEC_TOL = 1e-4
 SAMPLER_SOURCES = ("random", "grid", "drandom", "dgrid")
 UNIT_TOL = 1e-4
@@ -346,9 +347,15 @@ def make_case(ctx, idx):
         var = rng.choice(["x", "x", "x", "y", "z"])
         base = g.prim(var) if rng.random() < 0.6 else gen_bool(g, rng, 2, var, envs)
         polygonal = any(k_ in ("par", "tri") for k_ in base.kinds())
-        # float32 envelope: the barycentric tolerance 1e-5 of parallelogram / triangle needs size / offset ≳ 0.05
-        lam, off = gen_scale(rng, geomgen.DIM[var], Fr(1, 10) if polygonal else Fr(1, 64))
-        node = scale_node(base, lam, off)
+        # single parallelograms / triangles go far below size / offset = 1/40 (coordinate-relative tolerance of the library);
+        # nested expressions stay where every leaf has the tolerance 1e-5 (the model evaluates with one τ.batol)
+        for _try in range(20):
+            lam, off = gen_scale(rng, geomgen.DIM[var], (Fr(1, 512) if base.is_prim() else Fr(1, 10)) if polygonal else Fr(1, 64))
+            node = scale_node(base, lam, off)
+            if base.is_prim() or all(eff_batol(node, e_) == {Fr(1, 100000)} for e_ in envs):
+                break
+        else:
+            node = base
     elif mode == "touch":
         params, envs = [], [{}]
         node, _conf = gen_touching(rng)
@@ -571,6 +578,26 @@ def evaluated_rows(case, rep, tp, torch, B, solid, envs, rows):
     return out
 
 
+def eff_batol(solid, env):
+    """the barycentric tolerance the library uses (parallelogram.py: _bary_atol, since /repo 20d0b69), computed exactly:
+    max(BARY_ATOL, 2.5e-7 · largest |coordinate| · max(|dir_1|₁, |dir_2|₁) / |det|) per parallelogram / triangle leaf.
+    The Lean model has ONE τ.batol per evaluation: the value is passed when all such leaves of the expression agree
+    (always for a single primitive; nested expressions are generated so that every leaf has 1e-5), else the largest one
+    (counted as `mixed-batol`)."""
+    vals = set()
+    for lf in leaves(solid):
+        if lf.kind in ("par", "tri"):
+            o, c1, c2 = [pf.eval(env) for pf in lf.pfs]
+            d1 = [c1[0] - o[0], c1[1] - o[1]]; d2 = [c2[0] - o[0], c2[1] - o[1]]
+            det = abs(d1[0] * d2[1] - d1[1] * d2[0])
+            if det == 0:
+                continue
+            largest = max(abs(a) for a in o + c1 + c2)
+            L = max(abs(d1[0]) + abs(d1[1]), abs(d2[0]) + abs(d2[1]))
+            vals.add(max(Fr(1, 100000), Fr(1, 4000000) * largest * L / det))
+    return vals or {Fr(1, 100000)}
+
+
 def far_small_polygonal(solid, env):
     """a parallelogram / triangle leaf whose smallest side is below 1/40 of its largest coordinate: the float32 rounding of its
     barycentric coordinates exceeds BARY_ATOL (known finding bary_tolerance_far_small_shapes)"""
@@ -748,6 +775,12 @@ def evaluate(ctx, rep, cases, fixed=None):
             env = envs[r["env"]]
             pe = {var: [to_fr(a) for a in r["p"]]}
             ent = dict(case=ci, row=r, a=len(lines))
+            eb = eff_batol(solid, env)
+            if len(eb) > 1:
+                rep.count("mixed-batol")
+            if max(eb) > Fr(1, 100000):
+                rep.count("effective-batol-above-1e-5")
+            BATOL = q(max(eb))
             head = f"{ATOL} {RTOL} {BATOL} {bt}"
             lines.append(f"normal {head} {env_tokens(pe)} {env_tokens(env)}")
             delta = Fr(4, 10 ** 6) * max([Fr(1)] + [abs(a) for a in pe[var]])
@@ -829,8 +862,6 @@ def judge(rep, cs, solid, ent, replies):
     # ---- property oracles (independent of the model of `normal`)
     fk = None
     finite = all(math.isfinite(a) for a in nv)
-    if not finite and far_small_polygonal(solid, {k_: [Fr(a) for a in v_] for k_, v_ in cs["envs"][r["env"]].items()}):
-        fk = "bary_tolerance_far_small_shapes"
     if not finite:
         rep.fail(f"normal() returned a non-finite vector {nv} at a boundary point ({r['src']})", inp, detail=dict(normal=nv), finding=fk)
     else:
@@ -937,13 +968,14 @@ def bad_interval_cases(ctx):
               out.append(dict(id=10000 + len(out), mode="badint-fixed", wrap=wrap_, dom=node.describe(), params=params,
                             envs=[{k_: [str(a) for a in v_] for k_, v_ in e.items()} for e in envs], n=rng.choice([4, 7, 8]),
                             seed=rng.randint(0, 2 ** 31 - 1), m=2))
-    # known-finding probe: a parallelogram of size 2^-7 near (1, 2) — outside the float32 envelope of BARY_ATOL
+    # regular positive cases: far-small parallelogram / triangle (size 2^-7 near (1, 2); size 1/4 near (−40, 90)), where the
+    # library's barycentric tolerance is the coordinate-relative one (/repo 20d0b69)
     from geomgen import PF as PF_, c as c_
-    lam = Fr(1, 128)
-    probe = Node("par", "x", [PF_([c_(Fr(1)), c_(Fr(2))]), PF_([c_(1 + lam * Fr(7, 8)), c_(2 + lam * Fr(3, 8))]),
-                              PF_([c_(1 - lam * Fr(3, 8)), c_(2 + lam * Fr(3, 4))])])
-    out.append(dict(id=10000 + len(out), mode="finding-probe", wrap="bdry", dom=probe.describe(), params=[], envs=[{}], n=24,
-                    seed=rng.randint(0, 2 ** 31 - 1), m=2))
+    for kind_, base_, lam in (("par", (Fr(1), Fr(2)), Fr(1, 128)), ("tri", (Fr(-40), Fr(90)), Fr(1, 4)), ("tri", (Fr(1), Fr(2)), Fr(1, 128))):
+        far = Node(kind_, "x", [PF_([c_(base_[0]), c_(base_[1])]), PF_([c_(base_[0] + lam * Fr(7, 8)), c_(base_[1] + lam * Fr(3, 8))]),
+                                PF_([c_(base_[0] - lam * Fr(3, 8)), c_(base_[1] + lam * Fr(3, 4))])])
+        out.append(dict(id=10000 + len(out), mode="far-small-fixed", wrap="bdry", dom=far.describe(), params=[], envs=[{}], n=24,
+                        seed=rng.randint(0, 2 ** 31 - 1), m=2))
     # fixed touching configurations built with the `contained` / `disjoint` flags
     for conf, flagged in (("edge", True), ("corner", True), ("tri-on-edge", True), ("hole", True), ("adjacent", True), ("edge", False)):
         node, _ = gen_touching(rng, conf, flagged)
